@@ -15,7 +15,7 @@ RULE = ('model states reached (a) by the operation histories of C02 through the 
         'predicate functions, order_by / reverse_order_by on 1-2 attributes (ties frequent); navigation chains of '
         "1-4 hops via .nav() and the X[n, 'phrase'] syntax from None, an instance, a QuerySet, a list or a generator, "
         'through association classes (direct class-to-class hop) and reflexive phrases, with filters, in many/one/any '
-        'form; navigate_subtype. Oracle: evaluation over the plain relational shadow (filter = conjunction in '
+        'form; navigate_subtype. Every returned set is then emptied by the caller (a result is a value, not a view of the model); for half of the history states the model is changed a little afterwards (values of a later instance copied to an earlier one, further relate / unrelate / delete calls) and the same queries are asked again. Oracle: evaluation over the plain relational shadow (filter = conjunction in '
         'creation order, stable sort, descending keeps ties in original order, navigation = duplicate-free union in '
         'encounter order). non-trivial = query with >= 2 operators or a chain of >= 2 hops from >= 2 start '
         'instances, with a non-empty expected result and >= 1 candidate filtered out; distinct = by (state, query).')
@@ -30,7 +30,12 @@ def query_specs(draw):
     n = draw(st.integers(1, 8))
     out = []
     for _ in range(n):
-        if draw(st.booleans()):
+        if draw(st.integers(0, 5)) == 0:
+            # the everyday lookup: one instance by the value of one plain attribute
+            out.append({'kind': 'select', 'cls': draw(st.integers(0, 9)), 'form': draw(st.sampled_from(['one', 'any'])),
+                        'ops': [['where-plain', draw(st.integers(0, 9)), draw(st.integers(0, 9)), draw(st.sampled_from(['kw', 'dict', 'altcase']))]],
+                        'via': draw(st.sampled_from(['model', 'metaclass']))})
+        elif draw(st.booleans()):
             out.append({'kind': 'select', 'cls': draw(st.integers(0, 9)),
                         'form': draw(st.sampled_from(['many', 'many', 'one', 'any'])),
                         'ops': draw(op_specs()), 'via': draw(st.sampled_from(['model', 'metaclass']))})
@@ -71,6 +76,13 @@ def cases(draw):
         h = draw(c02_links.history_cases())
         h['queries'] = draw(query_specs())
         h['source'] = 'history'
+        # after the first pass of queries the model changes a little (values copied from a later instance to an earlier
+        # one, further relate / unrelate / delete calls) and the SAME queries are asked again
+        h['tail'] = [['copy', draw(st.integers(0, 20)), draw(st.integers(0, 20))] for _ in range(draw(st.integers(0, 3)))]
+        k = draw(st.integers(0, 4))
+        if k and len(h['ops']) > k:
+            h['tail'] += h['ops'][-k:]
+            h['ops'] = h['ops'][:-k]
         return h
     schema_js = draw(gen_schema.schemas(max_classes=3, max_assocs=3, max_extra_attrs=2, key_types=['INTEGER', 'STRING', 'UNIQUE_ID']))
     rows = draw(popgen.dirty_rows(schema_js, max_rows=4))
@@ -97,6 +109,9 @@ class State(object):
                     continue
                 r.apply(op)
             self.m, self.sh = r.m, r.sh
+            self.runner = r
+            self.found = []
+            self.found_kv = {}
             self.real = dict((rec.idx, r.real[rec.idx]) for rec in r.sh.recs)
         else:
             self.m, _text = popgen.load_rows(case['schema'], case['rows'])
@@ -115,6 +130,56 @@ class State(object):
             if v is inst:
                 return k
         return None
+
+
+def apply_tail(st_, case):
+    """-> number of changes made to model and shadow alike"""
+    r = st_.runner
+    n = 0
+    for op in case.get('tail', []):
+        if op[0] == 'copy':
+            live = [rec for rec in r.sh.recs if rec.alive]
+            if len(live) < 2:
+                continue
+            found = [rec for rec in getattr(st_, 'found', []) if rec.alive and any(e.alive and e.cls == rec.cls and e.idx < rec.idx for e in live)]
+            if found:
+                # an instance created before the one a select one / any just returned becomes its equal
+                b = found[op[1] % len(found)]
+                earlier = [e for e in live if e.cls == b.cls and e.idx < b.idx]
+                a = earlier[op[2] % len(earlier)]
+            else:
+                a, b = live[op[1] % len(live)], live[op[2] % len(live)]
+            if a.idx > b.idx:
+                a, b = b, a
+            if a is b or a.cls != b.cls:
+                continue
+            ident = set()
+            for u in st_.schema.uniques:
+                if u['cls'] == a.cls:
+                    ident |= set(u['attrs'])
+            for x in st_.schema.assocs:
+                if x['tgt'] == a.cls:
+                    ident |= set(x['tgt_keys'])
+            for nme, _t in st_.schema.plain_attrs(a.cls):
+                if nme in ident or nme in ('self', 'kind'):
+                    continue            # identifying values stay as they are (they carry the links' referential values)
+                # the values the query asked for, else those of the later instance
+                v = getattr(st_, 'found_kv', {}).get(b.idx, {}).get(nme, b.vals[nme]) if found else b.vals[nme]
+                setattr(r.real[a.idx], nme, v)
+                a.vals[nme] = v
+                n += 1
+            continue
+        if op[0] in ('relate', 'unrelate'):
+            op = c02_links.resolve_cls_refs(r, op)
+            if op is None:
+                continue
+        op = c02_links.normalise(r, op)
+        if op is None:
+            continue
+        r.apply(op)
+        n += 1
+    st_.real = dict((rec.idx, r.real[rec.idx]) for rec in r.sh.recs)
+    return n
 
 
 def sortable_attrs(st_, cname):
@@ -143,6 +208,19 @@ def build_ops(st_, cname, specs):
     attrs = [n for n, _ in st_.schema.attrs(cname)]
     real_ops, sh_ops = [], []
     for sp in specs:
+        if sp[0] == 'where-plain':
+            ident = set()
+            for u in st_.schema.uniques:
+                if u['cls'].upper() == cname.upper():
+                    ident |= set(u['attrs'])
+            for x in st_.schema.assocs:
+                if x['tgt'].upper() == cname.upper():
+                    ident |= set(x['tgt_keys'])
+            plain = [n for n, _t in st_.schema.plain_attrs(cname) if n not in ('self', 'kind')]
+            plain = [n for n in plain if n not in ident] or plain or attrs
+            a = plain[sp[1] % len(plain)]
+            pool = value_pool(st_, cname, a)
+            sp = ['where', [(attrs.index(a), sp[2] % len(pool))], sp[3]]
         if sp[0] == 'where':
             kv = {}
             for k, j in sp[1]:
@@ -246,12 +324,15 @@ def run_queries(st_, case, res=None):
         raise Violation(bucket, case, 'query %r: %s' % (q, detail))
 
     names = [c['name'] for c in st_.schema.classes]
-    for q in case['queries']:
+    built = st_.__dict__.setdefault('built', {})
+    for qi, q in enumerate(case['queries']):
         nontrivial = False
         classes = []
         if q['kind'] == 'select':
             cname = names[q['cls'] % len(names)]
-            real_ops, sh_ops = build_ops(st_, cname, q['ops'])
+            if qi not in built:
+                built[qi] = build_ops(st_, cname, q['ops'])     # asked again later with the very same operators and values
+            real_ops, sh_ops = built[qi]
             cands = st_.sh.live(cname)
             want = sh_apply(st_, cands, sh_ops)
             target = st_.m if q['via'] == 'model' else st_.m.find_metaclass(cname)
@@ -261,7 +342,9 @@ def run_queries(st_, case, res=None):
                     got = target.select_many(*(pre + tuple(real_ops)))
                     if not isinstance(got, xtuml.QuerySet):
                         fail('select-many-not-queryset', type(got), q)
+                    raw = got
                     got = [st_.idx(x) for x in got]
+                    raw.clear()        # a result belongs to the caller: emptying it is no operation on the model
                     exp = [r.idx for r in want]
                 elif q['form'] == 'one':
                     g = target.select_one(*(pre + tuple(real_ops)))
@@ -271,6 +354,13 @@ def run_queries(st_, case, res=None):
                     g = st_.m.select_any(cname, *real_ops)
                     got = None if g is None else st_.idx(g)
                     exp = want[0].idx if want else None
+                if want and q['form'] != 'many' and hasattr(st_, 'found'):
+                    st_.found.append(want[0])
+                    kv_all = {}
+                    for o in sh_ops:
+                        if o[0] == 'where':
+                            kv_all.update(o[1])
+                    st_.found_kv[want[0].idx] = kv_all
             except Violation:
                 raise
             except Exception as e:
@@ -339,6 +429,8 @@ def run_queries(st_, case, res=None):
                     fail('navigate-many-not-queryset', type(g), q)
                 got = [st_.idx(x) for x in g]
                 exp = [r.idx for r in want]
+                while len(g):
+                    g.pop()            # used up as a work list by the caller
             else:
                 got = None if g is None else st_.idx(g)
                 exp = want[0].idx if want else None
@@ -444,6 +536,9 @@ def run(ctx):
             if systematic_two_hop(st_, case) and res is not None:
                 res.classes['two-hop-probe'] += 1
             check_links_unchanged(st_, case)
+            if case.get('tail') and apply_tail(st_, case):
+                second_pass(st_, case)
+                res.classes['asked-again-after-changes'] += 1
         except Violation:
             raise
         except Exception as e:
@@ -453,8 +548,18 @@ def run(ctx):
     return res
 
 
+def second_pass(st_, case):
+    try:
+        run_queries(st_, case)
+    except Violation as v:
+        raise Violation('asked-again:' + v.bucket, case, 'the same query after the model had changed: ' + v.detail)
+    check_links_unchanged(st_, case)
+
+
 def replay(case):
     st_ = State(case)
     run_queries(st_, case)
     systematic_two_hop(st_, case)
     check_links_unchanged(st_, case)
+    if case.get('tail') and apply_tail(st_, case):
+        second_pass(st_, case)
